@@ -46,6 +46,27 @@ class TrieSpec(hist.Spec):
     def witness_fields(self):
         return {}
 
+    # observe / mutate / observe pass (hist.interleavings)
+    METHS = ("split", "extract_suffix", "extract_domain_name", "has_valid_domain_name")
+
+    def probes(self):
+        return [[m, q] for q in self.qhosts for m in self.METHS]
+
+    def apply(self, t, op):
+        t.add(op[1])
+
+    def probe(self, t, p):
+        r = core.call(getattr(t, p[0]), p[1])
+        return ["ok", list(r[1]) if isinstance(r[1], tuple) else r[1]] if r[0] == "ok" else list(r[:2])
+
+    def ref_probe(self, rules, p):
+        parsed = [refpsl.parse_rule(r) for r in rules]
+        hl = tuple(p[1].split("."))
+        if refpsl.ambiguous(parsed, hl):
+            return None
+        exp = refpsl.answers(refpsl.suffix_len(parsed, hl), hl)[self.METHS.index(p[0])]
+        return ["ok", list(exp) if isinstance(exp, tuple) else exp]
+
     def check(self, t, rules):
         parsed = [refpsl.parse_rule(r) for r in rules]
         fails = []
@@ -84,7 +105,27 @@ def all_specs():
     }
 
 
+PURE_HOSTS = ["a.co.uk", "co.uk", "city.kawasaki.jp", "x.kawasaki.jp", "www.ck", "x.ck", "a.com", "A.COM.", "a.notatld", "localhost", "b.blogspot.com"]
+
+
+def pure_labels():
+    return [{"mod": "ural.tld", "fn": fn, "args": [h]} for h in PURE_HOSTS
+            for fn in ("split_suffix", "get_domain_name", "has_valid_suffix", "has_valid_tld")] + \
+           [{"mod": "ural.tld", "fn": "is_valid_tld", "args": [t]} for t in ("com", "COM", "xn--p1ai", "notatld", ".fr")]
+
+
+def pure_thunk(label):
+    mod = __import__('importlib').import_module(label["mod"])
+    f = getattr(mod, label["fn"])
+    args, kw = label.get("args", []), label.get("kw", {})
+    return lambda: core.call(f, *args, **kw)
+
+
 def judge(w):
+    if "history" in w:
+        return core.judge_history(PROP + ".pure", w, pure_thunk)
+    if "probe" in w:
+        return hist.judge_interleaved(TrieSpec("replay", [], []), w["ops"], w["probe"], w["then"])
     if "ops" in w:
         q = w["query"]
         spec = TrieSpec("replay", [], [q[1]])
@@ -114,11 +155,16 @@ def explore(chk):
     st = hist.closure(S["family-closure"], chk, "family-closure")
     if not st["complete"]:
         raise core.Harness("family closure did not complete")
+    chk.rule.append("Observe/mutate/observe: after every rule list of length <= %d over the family universe, every single SuffixTrie query, then one "
+                    "further rule (or none), then the same query twice, each answer compared with the PSL reference." % (2 if quick else 3))
+    hist.interleavings(S["family-closure"], chk, "interleaved-family", 2 if quick else 3)
     nstates = chk.cov["states"]
     for c in ("C08.trie.split", "C08.trie.suffix", "C08.trie.domain", "C08.trie.valid"):
         chk.clause(c, checked=chk.cov["traces_validated_against_impl"], nontrivial=nstates)
     from mc.props import c08_bundled
 
     c08_bundled.explore(chk)
+    chk.rule.append("H2: every ordered pair of %d tld-function calls from a reset module state." % len(pure_labels()))
+    core.explore_pairs(chk, PROP + ".pure", [(l, pure_thunk(l)) for l in pure_labels()])
     chk.cov["bounds"] = {"rule-list depth": 3 if quick else 4, "family": "closure"}
     chk.cov["distinct_nontrivial"] = chk.cov["states"]
